@@ -198,9 +198,25 @@ def partition_field(call, argi=1):
     return None
 
 
+BYTES_VIEWS = ("alloc::slice::<impl [T]>::to_vec", "alloc::borrow::ToOwned::to_owned", "core::convert::AsRef::as_ref", "core::convert::Into::into",
+               "core::convert::From::from", "core::clone::Clone::clone", "alloc::vec::Vec::<T, A>::as_slice", "core::ops::deref::Deref::deref")
+
+
 def key_constructor(e):
     """Identity of the key expression of a batch operation: ('id-bytes', place) | ('fn', callee, args) | ('other', fmt)."""
     x = q.peel(e)
+    # the same bytes handed over as a Vec, a full slice or a plain reference: `id.as_bytes().to_vec()`, `&id.as_bytes()[..]`
+    n = 0
+    while n < 6:
+        n += 1
+        if x[0] == "call" and x[1].fn in BYTES_VIEWS and x[2]:
+            x = q.peel(x[2][0])
+        elif x[0] == "call" and x[1].fn == "core::ops::index::Index::index" and len(x[2]) == 2 and "RangeFull" in fmt(strip(x[2][1])):
+            x = q.peel(x[2][0])
+        elif x[0] in ("ref", "deref", "cast") and len(x) > 1 and isinstance(x[1], tuple):
+            x = q.peel(x[1])
+        else:
+            break
     if x[0] == "call" and x[1].fn == "scru128::id::Scru128Id::as_bytes":
         return ("id-bytes", fmt(strip(x[2][0])))
     if x[0] == "call" and x[1].local:
